@@ -67,6 +67,10 @@ func (s *c13Server) fail(kind, f string, a ...any) {
 }
 
 func peer13(i int) *net.UDPAddr {
+	if i >= 6 {
+		// the many-peers sweep: one IP per peer
+		return &net.UDPAddr{IP: net.IPv4(10, byte(3+(i>>16)), byte(i>>8), byte(i)), Port: 7000}
+	}
 	// peers 0 and 1 share an IP
 	switch i % 6 {
 	case 0:
@@ -445,6 +449,37 @@ func runC13Inner(c *C13Case) (res c13Result) { //nolint:cyclop,gocyclo,maintidx
 					want[out[i].dst.String()] = append(want[out[i].dst.String()], out[i].payload)
 				}
 			}
+		case "manywrites":
+			// one datagram to each of N distinct peers: every peer must get its own channel number
+			if relay == nil || closed {
+				continue
+			}
+			for i := 0; i < op.N; i++ {
+				pa := peer13(6 + i)
+				seq++
+				payload := []byte(fmt.Sprintf("m%06d", seq))
+				if _, werr := relay.WriteTo(payload, pa); werr == nil {
+					want[pa.String()] = append(want[pa.String()], payload)
+				}
+				if i%64 == 63 {
+					synctest.Wait()
+				}
+			}
+			peersUsed[2], peersUsed[3] = true, true
+			time.Sleep(2 * time.Second)
+			synctest.Wait()
+			srv.mu.Lock()
+			distinct := map[uint16]bool{}
+			for _, n := range srv.peerChan {
+				distinct[n] = true
+			}
+			if len(srv.peerChan) >= op.N && len(distinct) != len(srv.peerChan) {
+				fail("channel-number-reused", "%s: %d peers share %d channel numbers", ctx, len(srv.peerChan), len(distinct))
+			}
+			if len(srv.peerChan) < op.N {
+				fail("binding-never-requested", "%s: only %d of %d peers ever got a ChannelBind request", ctx, len(srv.peerChan), op.N)
+			}
+			srv.mu.Unlock()
 		case "inbound":
 			if relay == nil {
 				continue
@@ -712,7 +747,7 @@ func TestC13(t *testing.T) {
 		if c.TCP {
 			r.Label("tcp-allocation")
 		}
-		if res.nontrivial || (c.TCP && len(c.Ops) > 0) {
+		if res.nontrivial || (c.TCP && len(c.Ops) > 0) || (len(c.Ops) == 1 && c.Ops[0].Kind == "manywrites") {
 			r.NonTrivial(vkit.Hash64(c))
 			r.Label("nontrivial")
 			if sample != "" {
@@ -749,6 +784,20 @@ func TestC13(t *testing.T) {
 	}
 	if r.Violations() > 0 {
 		return
+	}
+	if r.Shard == 0 {
+		// channel-number uniqueness over many peers: the whole number space in the thorough tier
+		n := 600
+		if r.Thorough() {
+			n = 16384
+		}
+		c := &C13Case{PermReact: []string{"ok"}, BindReact: []string{"ok"}, Reader: false, Ops: []Op13{{Kind: "manywrites", N: n}}}
+		r.LabelN("many-peers-sweep", n)
+		if kind, msg := do(c, "many-peers"); kind != "" {
+			r.Violate(kind, msg, c)
+
+			return
+		}
 	}
 	r.Rapid(t, "random", 0, r.Checks, func(rt *rapid.T) {
 		c := genC13(rt)
